@@ -185,13 +185,13 @@ func loadKnown(file string) ([]knownFinding, error) {
 // ---------------------------------------------------------------- evidence
 
 type ruleSummary struct {
-	Rule        string `json:"rule"`
-	Doc         string `json:"doc,omitempty"`
-	Instances   int    `json:"instances"`
-	Floor       int    `json:"floor"`
-	Discharged  int    `json:"discharged"`
-	Known       int    `json:"known_findings"`
-	Violated    int    `json:"violated"`
+	Rule       string `json:"rule"`
+	Doc        string `json:"doc,omitempty"`
+	Instances  int    `json:"instances"`
+	Floor      int    `json:"floor"`
+	Discharged int    `json:"discharged"`
+	Known      int    `json:"known_findings"`
+	Violated   int    `json:"violated"`
 }
 
 func (c *Ctx) summaries() []ruleSummary {
